@@ -64,6 +64,57 @@ def c09_classify(label, entry):
     return None
 
 
+def chain_family():
+    """fixed: every parameter rule (and the duplicate rules that span a hierarchy) violated at
+    every level of a three-level chain whose upper levels live in included files
+    (main.idl: ILeaf : IMid; mid.idl: IMid : IRoot; root.idl: IRoot) — all three are in the
+    chain of a main-file interface, so every one of them has to be refused"""
+    def P(d, t, n, arr=None):
+        return {"dir": d, "type": t, "arr": arr, "name": n}
+
+    def M(name, params):
+        return {"k": "method", "name": name, "optional": False, "doc": None, "params": params}
+    rules = {
+        "objarr-plus-obj": lambda d: [P(d, "IItem", "items", 4), P(d, "IItem", "owner")],
+        "two-objarr": lambda d: [P(d, "IItem", "xs", 2), P(d, "interface", "ys", 3)],
+        "unbounded-objarr": lambda d: [P(d, "IItem", "xs", "unbounded")],
+        "bounded-data-array": lambda d: [P(d, "uint32", "xs", 4)],
+        "objstruct-array": lambda d: [P(d, "ZHold", "hs", "unbounded")],
+        "dup-param": lambda d: [P(d, "uint32", "same"), P("in" if d == "out" else "out", "uint16", "same")],
+    }
+    out = []
+    for rule, mk in rules.items():
+        for level in range(3):
+            for d in ("in", "out"):
+                lv = [{"k": "interface", "name": nm_, "base": b_, "members": [M(f"ok{i_}", [P("in", "uint32", "x")])]}
+                      for i_, (nm_, b_) in enumerate((("IRoot", None), ("IMid", "IRoot"), ("ILeaf", "IMid")))]
+                lv[level]["members"].append(M("zviol", mk(d)))
+                item = {"k": "interface", "name": "IItem", "base": None, "members": []}
+                hold = {"k": "struct", "name": "ZHold", "fields": [{"type": "IItem", "count": 1, "name": "o"}, {"type": "uint64", "count": 2, "name": "a"}]}
+                files = [{"path": "main.idl", "nodes": [{"k": "include", "path": "mid.idl"}, lv[2]]},
+                         {"path": "mid.idl", "nodes": [{"k": "include", "path": "root.idl"}, lv[1]]},
+                         {"path": "root.idl", "nodes": [item, hold, lv[0]]}]
+                case = {"id": f"C09-chain-{rule}-{level}-{d}", "files": files, "main": "main.idl", "incdirs": []}
+                where = "main" if level == 2 else "included"
+                out.append((case, {"rule": rule, "where": where, "iface": lv[level]["name"], "in_main_chain": True, "dir": d,
+                                   "level": level, "small": False, "family": "chain"}))
+    # duplicates across levels: a method / error of the leaf repeats a name of the root
+    for kind in ("dup-method", "dup-const-error"):
+        lv = [{"k": "interface", "name": nm_, "base": b_, "members": []} for nm_, b_ in (("IRoot", None), ("IMid", "IRoot"), ("ILeaf", "IMid"))]
+        if kind == "dup-method":
+            lv[0]["members"].append(M("same", []))
+            lv[2]["members"].append(M("same", [P("in", "uint8", "x")]))
+        else:
+            lv[0]["members"].append({"k": "error", "name": "ZSAME"})
+            lv[2]["members"].append({"k": "const", "type": "uint8", "name": "ZSAME", "value": "1"})
+        files = [{"path": "main.idl", "nodes": [{"k": "include", "path": "mid.idl"}, lv[2]]},
+                 {"path": "mid.idl", "nodes": [{"k": "include", "path": "root.idl"}, lv[1]]},
+                 {"path": "root.idl", "nodes": [lv[0]]}]
+        out.append(({"id": f"C09-chain-{kind}", "files": files, "main": "main.idl", "incdirs": []},
+                    {"rule": kind, "where": "main", "iface": "ILeaf", "in_main_chain": True, "inherited": True, "family": "chain"}))
+    return out
+
+
 def run_c09(ctx, prop):
     gate = C.lean_gate(prop, ctx.tier)
     ctx.setup()
@@ -82,6 +133,7 @@ def run_c09(ctx, prop):
         if r is None:
             continue
         work.append(r)
+    work += chain_family()
     for case, label in work:
         rule = label["rule"]
         with C.Scratch() as tmp:
@@ -190,13 +242,42 @@ def run_c10(ctx, prop):
     distinct = set()
     flagsets = [[], ["--no-typed-objects"], ["--allow-undefined-behavior"]]
     fixed = [gen.nesting_case(d, k, cid="C10-nest") for d in (2, 3, 4) for k in range(0, d + 1)]
+    def _named(fname, order):
+        iface = {"k": "interface", "name": "IClock", "base": None, "members": [
+            {"k": "method", "name": "now", "optional": False, "doc": None, "params": [{"dir": "out", "type": "uint64", "arr": None, "name": "t"}]}]}
+        extra = [{"k": "struct", "name": "Tick", "fields": [{"type": "uint64", "count": 1, "name": "n"}]},
+                 {"k": "const", "type": "uint32", "name": "HZ", "value": "100"}]
+        nodes = {"only": [iface], "iface-first": [iface] + extra, "iface-last": extra + [iface]}[order]
+        return {"id": f"C10-named-{fname}-{order}", "files": [{"path": fname, "nodes": nodes}], "main": fname, "incdirs": []}
+    fixed += [_named(fn, o) for fn in ("IClock.idl", "iclock.idl", "clock.idl") for o in ("only", "iface-first", "iface-last")]
     for i in range(n + len(fixed)):
         base = fixed[i] if i < len(fixed) else gen.gen_case(ctx.rng, opts, cid=f"C10-{ctx.seed}-{i}")
-        variants = [("orig", base), ("permuted", permute_decls(base, ctx.rng)), ("merged", redistribute(base, ctx.rng))]
+        if i >= len(fixed) and i % 3 == 0:
+            # file named after one of its interfaces, interfaces before or after the file-level
+            # declarations as generated
+            gen.name_main_after_iface(base, ctx.rng)
+        variants = [("orig", base), ("permuted", permute_decls(base, ctx.rng)), ("merged", redistribute(base, ctx.rng)),
+                    ("commented", base)]
         for vname, case in variants:
             with C.Scratch() as tmp:
                 root = os.path.join(tmp, "src")
                 idl.render_case(case, root)
+                if vname == "commented":
+                    # ordinary comments at random token gaps the grammar admits (inside array
+                    # brackets, around `:`, between attribute and method, ...): still valid
+                    from .c14 import tokenize, with_trivia, pst_ok
+                    for f_ in case["files"]:
+                        fp = os.path.join(root, f_["path"])
+                        for _ in range(8):
+                            text = open(fp).read()
+                            toks, tail = tokenize(text)
+                            if not toks:
+                                break
+                            gap = ctx.rng.randint(0, len(toks))
+                            new_text = with_trivia(toks, tail, gap, ctx.rng.choice([" /* note, with: punctuation; */ ", " // line note\n", "/**/"]))
+                            open(fp, "w").write(new_text)
+                            if not pst_ok(ctx, fp):
+                                open(fp, "w").write(text)
                 ctx.bump("evaluations")
                 hist["variants"] += 1
                 backends = ["c", "c-skel", "cpp", "cpp-skel", "rust"]
